@@ -80,23 +80,33 @@ def run(ctx):
     calls = _guards_of(pop.node, lambda n: isinstance(n, ast.Call) and X.dotted_attr(n.func) == 'self._add_children')
     if not calls:
         raise AnalysisError('_populate: _add_children call not found')
+    qn = (X.names_assigned_from(pop.node, 'deque(') or ['queue'])[0]
+    itn = (X.names_assigned_from(pop.node, f'{qn}.popleft()') or ['item'])[0]
+    chn = (X.names_assigned_from(pop.node, 'self._add_children(') or ['children'])[0]
+    sdn = (X.names_assigned_from(pop.node, 'self._create_item(') or ['item'])[0]
     for c, g in calls:
-        if any(x == 'item.expand' for x in g):
+        if any(x == f'{itn}.expand' for x in g):
             ctx.judge('R1', '_populate:expand-guard', facts={'guards': g})
         else:
             ctx.violation('R1', '_populate:expand-guard', f'{pop.module.relpath}:{c.lineno}',
                           f'children are added under guards {g}: non-expanded items are expanded too')
-    ext = _guards_of(pop.node, lambda n: isinstance(n, ast.Call) and X.dotted_attr(n.func) == 'queue.extend')
+    ext = _guards_of(pop.node, lambda n: isinstance(n, ast.Call) and X.dotted_attr(n.func) == f'{qn}.extend')
     args = {ast.unparse(c.args[0]) for c, _ in ext}
-    (ctx.judge('R1', '_populate:queue', facts={'queued': sorted(args)}) if {'item', 'children'} <= args else
+    (ctx.judge('R1', '_populate:queue', facts={'queued': sorted(args)}) if {sdn, chn} <= args else
      ctx.violation('R1', '_populate:queue', pop.where, f'queue.extend called with {sorted(args)}: seeds/children not all queued'))
     ac = G.function('_add_children')
-    app = _guards_of(ac.node, lambda n: isinstance(n, ast.AugAssign) and ast.unparse(n.target) == 'dependencies')
+    ipar = [a.arg for a in ac.node.args.args][1]
+    dloop = next((n for n in ast.walk(ac.node) if isinstance(n, ast.For) and 'create_dependency_items' in ast.unparse(n.iter)
+                  and isinstance(n.target, ast.Name)), None)
+    if dloop is None:
+        raise AnalysisError('_add_children: loop over create_dependency_items not found')
+    dv = dloop.target.id
+    app = _guards_of(ac.node, lambda n: isinstance(n, ast.AugAssign) and isinstance(n.op, ast.Add) and dv in ast.unparse(n.value))
     if not app:
-        raise AnalysisError('_add_children: `dependencies +=` not found')
+        raise AnalysisError('_add_children: accumulation of the dependencies not found')
     for n, g in app:
         gt = ' and '.join(g)
-        if 'item.block' in gt and 'match_item_keys(dependency.name' in gt and gt.strip().startswith('not'):
+        if f'{ipar}.block' in gt and f'match_item_keys({dv}.name' in gt and gt.strip().startswith('not'):
             ctx.judge('R1', '_add_children:block-guard', facts={'guard': gt})
         else:
             ctx.violation('R1', '_add_children:block-guard', f'{ac.module.relpath}:{n.lineno}',
@@ -106,14 +116,16 @@ def run(ctx):
         raise AnalysisError('_add_children: is_ignored assignment not found')
     v = ign[0].value
     txt = ast.unparse(v)
-    ok = isinstance(v, ast.BoolOp) and isinstance(v.op, ast.Or) and 'item.is_ignored' in txt and 'item.ignore' in txt
+    ok = isinstance(v, ast.BoolOp) and isinstance(v.op, ast.Or) and f'{ipar}.is_ignored' in txt and f'{ipar}.ignore' in txt
     (ctx.judge('R1', '_add_children:ignore-propagation', facts={'value': txt}) if ok else
      ctx.violation('R1', '_add_children:ignore-propagation', f'{ac.module.relpath}:{ign[0].lineno}', f'is_ignored = {txt}'))
     item = m.get_class(IT, 'Item')
     cdi = item.function('create_dependency_items')
     src = ast.unparse(cdi.node)
     filt = [n for n in ast.walk(cdi.node) if isinstance(n, ast.GeneratorExp) and 'self.disable' in ast.unparse(n)]
-    ok = bool(filt) and any('not SchedulerConfig.match_item_keys(item.name, self.disable)' in ast.unparse(n) for n in filt)
+    ok = bool(filt) and any(isinstance(n.generators[0].target, ast.Name) and any(
+        ast.unparse(i) == f'not SchedulerConfig.match_item_keys({n.generators[0].target.id}.name, self.disable)' for i in n.generators[0].ifs)
+        for n in filt)
     (ctx.judge('R1', 'create_dependency_items:disable-filter') if ok else
      ctx.violation('R1', 'create_dependency_items:disable-filter', cdi.where, 'disabled dependencies are not filtered out'))
     ok = X.has(src, 'ignore = [*self.disable, *self.block]') and X.has(src, 'ignore=ignore')
@@ -166,17 +178,23 @@ def run(ctx):
     ok = False
     if comps:
         its = {ast.unparse(g.iter) for g in comps[0].generators}
-        ok = {'self.paths', 'self.source_suffixes'} <= its and "f'**/*{ext}'" in ast.unparse(comps[0])
+        extv = next((g.target.id for g in comps[0].generators if ast.unparse(g.iter) == 'self.source_suffixes'
+                     and isinstance(g.target, ast.Name)), 'ext')
+        ok = {'self.paths', 'self.source_suffixes'} <= its and f"f'**/*{{{extv}}}'" in ast.unparse(comps[0])
     (ctx.judge('R3', '_discover:glob', facts={'comprehension': ast.unparse(comps[0]) if comps else None}) if ok else
      ctx.violation('R3', '_discover:glob', d.where, 'file enumeration does not cover all paths x source suffixes recursively'))
     loops = [n for n in ast.walk(d.node) if isinstance(n, ast.For)]
-    ok1 = any(ast.unparse(l.iter) == 'path_list' and 'get_or_create_file_item_from_path(path' in ast.unparse(l) for l in loops)
-    ok2 = any('create_definition_items' in ast.unparse(l) and 'item_cache.update(definition_items)' in ast.unparse(l) for l in loops)
+    pln = (X.names_assigned_from(d.node, 'glob(') or ['path_list'])[0]
+    ok1 = any(ast.unparse(l.iter) == pln and isinstance(l.target, ast.Name)
+              and f'get_or_create_file_item_from_path({l.target.id}' in ast.unparse(l) for l in loops)
+    dfn = (X.names_assigned_from(d.node, 'create_definition_items(') or ['definition_items'])[0]
+    ok2 = any('create_definition_items' in ast.unparse(l) and f'item_cache.update({dfn})' in ast.unparse(l) for l in loops)
     (ctx.judge('R3', '_discover:file-items') if ok1 else
      ctx.violation('R3', '_discover:file-items', d.where, 'not every enumerated path becomes a FileItem'))
     (ctx.judge('R3', '_discover:definitions') if ok2 else
      ctx.violation('R3', '_discover:definitions', d.where, 'definition items of the file items are not all registered'))
-    fi = [n for n in ast.walk(d.node) if isinstance(n, ast.ListComp) and 'isinstance(file_item, FileItem)' in ast.unparse(n)]
+    fi = [n for n in ast.walk(d.node) if isinstance(n, ast.ListComp) and isinstance(n.generators[0].target, ast.Name)
+          and f'isinstance({n.generators[0].target.id}, FileItem)' in ast.unparse(n)]
     (ctx.judge('R3', '_discover:all-file-items') if fi and 'item_cache.values()' in ast.unparse(fi[0]) else
      ctx.violation('R3', '_discover:all-file-items', d.where, 'definition discovery does not iterate over all cached FileItems'))
     if X.has(src, 'list(set('):
@@ -199,18 +217,20 @@ def run(ctx):
     if len(loop) != 1:
         raise AnalysisError('get_all_import_map: scope walk not recognised')
     order = None
+    spar = [a.arg for a in gim.node.args.args][0]
+    imn = (X.names_assigned_from(gim.node, f'getattr({spar}', "'imports'") or ['imports'])[0]
     for st in loop[0].body:
-        if isinstance(st, ast.AugAssign) and ast.unparse(st.target) == 'imports' and isinstance(st.op, ast.Add):
+        if isinstance(st, ast.AugAssign) and ast.unparse(st.target) == imn and isinstance(st.op, ast.Add):
             order = 'inner-first'            # imports += parent imports
-        elif isinstance(st, ast.Assign) and ast.unparse(st.targets[0]) == 'imports' and isinstance(st.value, ast.BinOp):
+        elif isinstance(st, ast.Assign) and ast.unparse(st.targets[0]) == imn and isinstance(st.value, ast.BinOp):
             l, r = ast.unparse(st.value.left), ast.unparse(st.value.right)
-            if r == 'imports' and 'scope' in l:
+            if r == imn and spar in l:
                 order = 'outer-first'        # imports = parent imports + imports
-            elif l == 'imports' and 'scope' in r:
+            elif l == imn and spar in r:
                 order = 'inner-first'
     if order is None:
         raise AnalysisError('get_all_import_map: accumulation of parent imports not recognised')
-    gens = [g for n in ast.walk(gim.node) if isinstance(n, ast.GeneratorExp) for g in n.generators if 'imports' in ast.unparse(g.iter)]
+    gens = [g for n in ast.walk(gim.node) if isinstance(n, ast.GeneratorExp) for g in n.generators if imn in ast.unparse(g.iter)]
     if not gens:
         raise AnalysisError('get_all_import_map: map construction not recognised')
     rev = ast.unparse(gens[0].iter).count('reversed(') % 2 == 1
